@@ -1,5 +1,6 @@
 import LentilVerif.Lemmas.EnergyPlane
 import LentilVerif.Lemmas.EnergyFft
+import LentilVerif.Lemmas.EnergyPupil
 import LentilVerif.Lemmas.FourierWiring   -- the dft2 model = the wiring regenerated from fourier.py (theorem: C01.dft2_follows_source_wiring)
 /-! # C05 — propagation conserves energy
 
@@ -182,6 +183,23 @@ theorem propagate_fft_energy (fs : List (Fld ℂ)) (W0 W1 : ℕ) (dx0 dx1 du0 du
         = arrSum (intensity (R := ℝ) (embedAll fs W0 W1))) :=
   propagate_fft_energy_aux fs W0 W1 dx0 dx1 du0 du1 wl z os shape scratch lam S0 S1 so g h hiso hp hz hos hS hW hfit hpos hso
 
+/-- **the FFT propagator conserves energy on non-square grids too.** Same statement as `propagate_fft_energy` under C09's weaker
+condition: isotropic `dx·du`, *or* a grid consistent with the two samplings, `S0·dx0·du0 = S1·dx1·du1` (then `α = (1/S0, 1/S1)` at
+the reported wavelength, `S0 ≠ S1` allowed). -/
+theorem propagate_fft_energy_consistent (fs : List (Fld ℂ)) (W0 W1 : ℕ) (dx0 dx1 du0 du1 wl z : ℝ) (os : ℤ)
+    (shape : Option (ℤ × ℤ)) (scratch : Option (Arr ℂ)) (lam : ℝ) (S0 S1 : ℤ) (so : ℤ × ℤ) (g : Fld ℂ)
+    (h : propagateFft 1 fs false W0 W1 dx0 dx1 du0 du1 wl z os shape scratch = FftOut.ok lam S0 S1 so g)
+    (hcons : dx0 * du0 = dx1 * du1 ∨ (S0 : ℝ) * (dx0 * du0) = (S1 : ℝ) * (dx1 * du1))
+    (hp : dx0 * du0 ≠ 0) (hp1 : dx1 * du1 ≠ 0) (hz : z ≠ 0) (hos : 0 < os) (hS : 0 < S0 ∧ 0 < S1)
+    (hW : (W0 : ℤ) ≤ S0 ∧ (W1 : ℤ) ≤ S1) (hfit : ∀ f ∈ fs, f.within W0 W1)
+    (hpos : ∀ f ∈ fs, 0 < f.arr.s0 ∧ 0 < f.arr.s1) (hso : 0 < so.1 ∧ 0 < so.2) :
+    ∑ i ∈ range so.1.toNat, ∑ j ∈ range so.2.toNat, Complex.normSq ((wavefrontField 1 [g] so.1 so.2).get i j)
+      ≤ arrSum (intensity (R := ℝ) (embedAll fs W0 W1)) ∧
+    (so = (S0, S1) →
+      ∑ i ∈ range so.1.toNat, ∑ j ∈ range so.2.toNat, Complex.normSq ((wavefrontField 1 [g] so.1 so.2).get i j)
+        = arrSum (intensity (R := ℝ) (embedAll fs W0 W1))) :=
+  propagate_fft_energy_cons fs W0 W1 dx0 dx1 du0 du1 wl z os shape scratch lam S0 S1 so g h hcons hp hp1 hz hos hS hW hfit hpos hso
+
 /-- **several fields transform like the wavefront's total field** (linearity + zero-padded embedding): the statement that lets the
 single-array theorems above speak about segmented pupils -/
 theorem fields_transform_as_total (fs : List (Fld ℂ)) (S0 S1 : ℕ) (hfit : ∀ f ∈ fs, Fits f S0 S1) (αr αc : ℝ) (U V : ℤ) :
@@ -234,6 +252,23 @@ theorem common_tilt_period_energy (fs : List (Fld ℂ)) (S0 S1 K L : ℕ) (hfit 
           (-((K : ℤ) / 2) + fix0 + u) (-((L : ℤ) / 2) + fix1 + v)).sum)
       = arrSum (intensity (R := ℝ) (embedAll fs S0 S1)) :=
   common_tilt_period_energy_aux fs S0 S1 K L hfit hK hL hS0 hS1 fix0 fix1 sub0 sub1 oe hoe hcover
+
+/-- **a pupil images to its amplitude·mask power** ("an amplitude with power p images to total p"). The fresh wavefront
+(`unitField`) multiplied by a pupil plane — `Plane.multiply` as modelled and proved in C07, monolithic mask with a bounding box of
+more than one pixel, any OPD, any wavelength — and propagated over one full period `K × L ≥` plane shape gives an image whose
+total is `Σ_mask |amplitude|²`: the phase factor has modulus 1 and the transform is unitary. With `normalize_power_power`
+(`Σ|normalize_power(a, p)|² = p`) this is the clause "a normalised amplitude images to total p"; segmented masks reduce to
+this one by C03 `segmented_eq_monolithic_end_to_end`. -/
+theorem pupil_images_to_amplitude_power (wl : ℝ) (amp : Attr ℂ) (opd : Attr ℝ) (S0 S1 K L : ℕ) (g : Seg) (hc : g.covers S0 S1)
+    (hbig : g.s.r0 < g.s.r1 ∧ g.s.c0 < g.s.c1 ∧ ¬ (g.s.r1 - g.s.r0 = 1 ∧ g.s.c1 - g.s.c0 = 1))
+    (hK : 0 < K) (hL : 0 < L) (hS0 : S0 ≤ K) (hS1 : S1 ≤ L) (oe : Extent) (P0 P1 : ℤ)
+    (hoe : oe.rmin ≤ oe.rmax ∧ oe.cmin ≤ oe.cmax) (hP : 0 < P0 ∧ 0 < P1)
+    (hcover : ∀ q ∈ periodBox K L, (oe.inb q.1 q.2 && (propExtent P0 P1 0 0).inb q.1 q.2) = true) :
+    ∑ q ∈ periodBox K L, Complex.normSq
+        (((planeMultiply (planePh wl) ⟨amp, opd, .segs S0 S1 [g]⟩ [unitField]).map fun f =>
+          embO (propagateField (⟨f, 0, 0, 0, 0⟩ : TField ℂ ℝ) (1 / (K : ℝ)) (1 / (L : ℝ)) oe P0 P1) q.1 q.2).sum)
+      = ∑ i ∈ range S0, ∑ j ∈ range S1, (if g.m i j = true then Complex.normSq (amp.at i j) else 0) :=
+  pupil_image_total_aux wl amp opd S0 S1 K L g hc hbig hK hL hS0 hS1 oe P0 P1 hoe hP hcover
 
 /-- **the `fft2` contract is the textbook unitary DFT.** `fft2ortho` (written with the shared `dft2` so that the FFT path
 theorem can reuse its algebra) is entry by entry `(1/√(mn)) Σ_a Σ_b x[a,b]·exp(−2πi·a·k/m)·exp(−2πi·b·l/n)`, origin at index 0 -/
